@@ -85,7 +85,7 @@ func init() {
 				}
 				showPB(&t, stripDelim(o.bin))
 				var jt toks
-				judge(&jt, o, fc)
+				judge(&jt, o, fc, false)
 				// drop the "b =hex" prefix of judge's output
 				s := jt.String()
 				for k := 0; k < 2; k++ {
